@@ -5,7 +5,7 @@
    left-justified space-padded columns (a blank numeric column reads as 0, a name may carry a trailing '/'),
    data padded to even length. *)
 From Coq Require Import List Ascii String Bool Arith ZArith Lia.
-Require Import GS AR AR2 AR3 D16 DEB.
+Require Import GS AR AR2 AR3 D16 DEB R2u ARu.
 Import ListNotations.
 
 (* iterating a rendered archive returns exactly the members' entries in order, then a clean end of archive *)
@@ -29,6 +29,11 @@ Proof. exact C13_readers_independent. Qed.
 Theorem C13_runner_form : forall fuel buf off, iterate_z fuel buf off = iterate fuel buf off.
 Proof. exact iterate_z_eq. Qed.
 Print Assumptions C13_runner_form.
+(* the runner trims the header columns with Go's exact Unicode whitespace; on a header without the encoding of a
+   non-ASCII Unicode space each step is the model's step *)
+Theorem C13_exact_header_parser_agrees : forall buf off, uclean (sub buf off 60) -> ar_next_u buf off = ar_next buf off.
+Proof. exact ar_next_u_clean. Qed.
+Print Assumptions C13_exact_header_parser_agrees.
 
 Example C13_nonvacuous : wf_member {| m_name := s "debian-binary"; m_slash := true; m_ts := s "1"; m_uid := []; m_gid := s "0";
                                       m_mode := s "100644"; m_size := s "3"; m_data := s "2.0" |}.
